@@ -7,7 +7,8 @@ requests executed on one environment, each request in its own forked child:
     Eups(readCache=False, keep, max_depth); selectVRO(tag, versionName, inexact_version); eups.app.setup(...)
 
 Observables per request: outcome (ok | notfound | raised), the VRO, SETUP_* records, *_DIR, every variable a
-table names as canonical element lists, aliases, the command list's kind, the deepest nesting of Eups.setup.
+table names as canonical element lists, aliases, the command list of eups.app.setup string by string (`sh`: against
+Model/Setup composed with Model/ShellEmit's rendering, see sh_comparable / sh_canon), the deepest nesting of Eups.setup.
 Oracle (ii) is computed from the graph and the implementation's outputs only (never from the model)."""
 import contextlib
 import io
@@ -16,6 +17,18 @@ import os
 import sys
 
 from . import common
+
+def mirrors(pid):
+    """MIRRORS of a C01/C02/C04 harness: the central list (fingerprints/mirrors.json) plus what round 3 put under the
+    correspondence: the emission loop (app.setup / unsetup), the command line entry (setupcmd), the naming helpers
+    (utils) and the expansion of ${PRODUCT_DIR} / ${<NAME>_DIR} / ${PRODUCT_VERSION} when a table is loaded."""
+    with open(os.path.join(common.VERIF, "fingerprints", "mirrors.json")) as f:
+        base = [tuple(x) for x in json.load(f).get(pid, [])]
+    extra = [("python/eups/app.py", "setup"), ("python/eups/app.py", "unsetup"), ("python/eups/setupcmd.py", "*"),
+             ("python/eups/utils.py", "*"), ("python/eups/table.py", "Table.expandEupsVariables"),
+             ("python/eups/Product.py", "*")]
+    return base + [x for x in extra if x not in base]
+
 
 FUEL = 60                       # nesting depth of Eups.setup the model follows; deeper = out-of-fuel
 BASE_PATH = "/usr/bin:/bin"
@@ -71,10 +84,19 @@ def gen_contribs(rng, n, pathvars, rich):
         acts.append({"a": "set", "var": n.upper() + "_MODE", "own": False, "val": "mode-" + n})
     if rich and rng.random() < 0.2:
         acts.append({"a": "alias", "key": "run_" + n, "val": "echo run " + n})
+    if rich and rng.random() < 0.14:
+        # the product's own directory spelled ${<NAME>_DIR} in the *middle* of a value: -L${N_DIR}/lib (blank-delimited
+        # variable) or /opt/share/n:${N_DIR}/man (text, and a delimiter, in front of the reference; a value that *starts*
+        # with the delimiter would add an empty element, which is C12's string level)
+        if "LDF" in pathvars and rng.random() < 0.6:
+            acts.append({"a": "prepend", "var": "LDF", "own": False, "val": "-L%D/lib", "append": rng.random() < 0.5})
+        else:
+            acts.append({"a": "prepend", "var": rng.choice(["PATH", "LIBP"]), "own": False,
+                         "val": "/opt/share/%s:%%D/man" % n, "append": rng.random() < 0.5})
     return acts
 
 
-def gen_graph(rng, cyc=False, rich=True, nmin=3, nmax=7):
+def gen_graph(rng, cyc=False, rich=True, nmin=3, nmax=7, generic=False):
     """DAG by name order (product i depends on products of larger index); with cyc, a few back edges
     create name-level cycles across versions (the D17 class)."""
     k = rng.randint(nmin, nmax)
@@ -85,6 +107,8 @@ def gen_graph(rng, cyc=False, rich=True, nmin=3, nmax=7):
     space_root = rng.random() < 0.1
     if rng.random() < 0.4:      # a blank delimiter only where no directory contains a blank (C12 owns that case)
         pathvars["XP"] = rng.choice([";", ",", "|"] + ([] if spaces or space_root else [" "]))
+    if rich and not spaces and not space_root and rng.random() < 0.35:
+        pathvars["LDF"] = " "    # a blank-delimited flags variable (envAppend(LDF, -L${X_DIR}/lib, " "))
     decls, cur, beta = [], {}, {}
     for i, n in enumerate(names):
         vs = rng.sample(pool, rng.randint(1, 3))
@@ -118,6 +142,20 @@ def gen_graph(rng, cyc=False, rich=True, nmin=3, nmax=7):
                     else:
                         other.append({"a": "prepend", "var": "PATH", "own": True, "val": "/ibin", "append": False})
                 table = acts[:i0] + [{"if": acts[i0:i1], "else": other}] + acts[i1:]
+            if rich and rng.random() < 0.15:     # if (type == build) { … } else { … }  (setup --type build)
+                flat_i = [k_ for k_, seg in enumerate(table) if "if" not in seg]
+                if flat_i:
+                    k_ = rng.choice(flat_i)
+                    other = [{"a": "prepend", "var": "PATH", "own": True, "val": "/dbg", "append": rng.random() < 0.5}] \
+                        if rng.random() < 0.6 else []
+                    if rng.random() < 0.3 and i + 1 < len(names):
+                        other.append({"a": "dep", "name": rng.choice(names[i + 1:]), "opt": rng.random() < 0.5,
+                                      "just": False, "spec": gen_spec(rng, pool)})
+                    seg = {"if": [table[k_]], "else": other, "cond": "build"}
+                    if rng.random() < 0.3:
+                        seg = {"if": other, "else": [table[k_]], "cond": "build"}
+                    if seg["if"] or seg["else"]:
+                        table[k_] = seg
             sub = "Linux/%s%s/%s" % (n, " dir" if spaces else "", v)
             decls.append({"name": n, "ver": v, "sub": sub, "table": table})
         if rng.random() < 0.85:
@@ -126,14 +164,49 @@ def gen_graph(rng, cyc=False, rich=True, nmin=3, nmax=7):
             beta[n] = rng.choice(vs)
     g = {"names": names, "pool": pool, "pathvars": pathvars, "space_root": space_root,
          "decls": decls, "tags": {"current": cur, "beta": beta}, "cyc": cyc, "nstacks": 1}
+    if rich and rng.random() < 0.15:
+        # ONE table file shared by every version of a product (declare -m /site/<name>.table): the table speaks of
+        # ${PRODUCT_DIR} and ${PRODUCT_VERSION}; a switch between the versions reads the same file for two products
+        multi = sorted({d["name"] for d in decls if sum(1 for x in decls if x["name"] == d["name"]) > 1})
+        if multi:
+            ns = rng.choice(multi)
+            mine_ = [d for d in decls if d["name"] == ns]
+            t0 = mine_[0]["table"] + [{"a": "prepend", "var": "PATH", "own": True, "val": "/v%V/bin", "append": rng.random() < 0.5}]
+            if rng.random() < 0.5:
+                t0.append({"a": "set", "var": ns.upper() + "_VER", "own": False, "val": "%V"})
+            import copy as _copy
+            for d in mine_:
+                d["table"] = _copy.deepcopy(t0)
+                d["shared"] = "site/%s.table" % ns
+            g["shared_table"] = ns
+    if generic:
+        # a product declared -f generic (found through the fallback flavors; its SETUP_ record says -f generic).  Only in
+        # the aimed stream gen_generic_keep_case: the flavor fallback loop of Eups.setup is not modelled (see there)
+        cand = [n for n in names if n != g.get("shared_table")]
+        ng = rng.choice(cand)
+        for d in decls:
+            if d["name"] == ng:
+                d["flavor"] = "generic"
+        g["generic"] = ng
+    if rich and rng.random() < 0.2:
+        # a bystander whose name is <requested product>_<suffix> (pex / pex_policy): SETUP_PEX vs SETUP_PEX_POLICY; it
+        # shares version names with the product it is named after; nothing depends on it and it depends on nothing
+        n0 = rng.choice(names)
+        pn = n0 + rng.choice(["_policy", "_p", "_config"])
+        vs0 = [d["ver"] for d in decls if d["name"] == n0]
+        for v in sorted(set([rng.choice(vs0)] + ([rng.choice(pool)] if rng.random() < 0.5 else []))):
+            decls.append({"name": pn, "ver": v, "sub": "Linux/%s/%s" % (pn, v), "table": gen_contribs(rng, pn, pathvars, rich)})
+        cur[pn] = rng.choice([d["ver"] for d in decls if d["name"] == pn])
+        g["names"] = names + [pn]
+        g["prefix_pair"] = [n0, pn]
     if rich and rng.random() < 0.08:
         # a "meta" product: every version declared without a directory (PROD_DIR = none); its tables hold literals only
-        n0 = rng.choice(names)
+        n0 = rng.choice([n for n in names if n not in (g.get("shared_table"), g.get("generic"))] or names)
         for d in decls:
             if d["name"] == n0:
                 d["sub"] = None
-                lit = lambda a: dict(a, own=False, val="/meta/%s/%s%s" % (n0, d["ver"], a["val"]), more=[]) if a.get("a") in ("prepend", "set") else a
-                d["table"] = [({"if": [lit(x) for x in seg["if"]], "else": [lit(x) for x in seg["else"]]} if "if" in seg else lit(seg))
+                lit = lambda a: dict(a, own=False, val="/meta/%s/%s%s" % (n0, d["ver"], a["val"].replace("%D", "").replace("%V", "").replace(":", "")), more=[]) if a.get("a") in ("prepend", "set") else a
+                d["table"] = [(dict(seg, **{"if": [lit(x) for x in seg["if"]], "else": [lit(x) for x in seg["else"]]}) if "if" in seg else lit(seg))
                               for seg in d["table"]]
     if rich and rng.random() < 0.3:
         add_second_stack(rng, g)
@@ -149,6 +222,8 @@ def add_second_stack(rng, g):
     cur1 = {}
     mine = []
     for d in list(g["decls"]):
+        if d["name"] == g.get("generic"):
+            continue        # the flavor fallback loop is not modelled: a generic-flavored product lives in one stack only
         if rng.random() < 0.4:
             t = copy.deepcopy(d["table"])
             t.append({"a": "prepend", "var": "PATH", "own": True, "val": "/mine", "append": rng.random() < 0.5})
@@ -156,11 +231,13 @@ def add_second_stack(rng, g):
                 t = [x for x in t if not ("a" in x and x["a"] == "set")]
             mine.append({"name": d["name"], "ver": d["ver"], "stack": 1, "sub": "Linux/%s/%s" % (d["name"], d["ver"]), "table": t})
     for n in g["names"]:
-        if rng.random() < 0.2:
+        if n != g.get("generic") and rng.random() < 0.2:
             v = rng.choice([x for x in ["4", "4.1", "5"]])
             mine.append({"name": n, "ver": v, "stack": 1, "sub": "Linux/%s/%s" % (n, v),
                          "table": [{"a": "prepend", "var": "PATH", "own": True, "val": "/bin", "append": False}]})
     for d in mine:
+        if d["name"] == g.get("generic"):
+            d["flavor"] = "generic"          # a product is declared under one flavor wherever it is declared
         if rng.random() < 0.4:
             cur1[d["name"]] = d["ver"]
     g["decls"] += mine
@@ -195,6 +272,13 @@ def gen_request(rng, g, op=None, plain=False):
     if req["tags"] and rng.random() < 0.25:
         req["tags"] = rng.choice([["beta", "current"], ["current", "beta"], ["current"]])
     req["path"] = [0] if g.get("nstacks", 1) == 1 else rng.choice([[0], [0], [1, 0], [1, 0], [0, 1], [1]])
+    # the entry point: eups.app.setup called directly, or the command line of `eups_setup` (setupcmd.EupsSetup:
+    # option parsing, -j / -S / -k / -t / -E / -u / -Z glue, the printed command text)
+    if req["name"] == g.get("generic"):
+        req["keep"] = False       # (see add_second_stack) the already-set-up fallback of the first flavor round is not modelled
+    req["cli"] = rng.random() < 0.3
+    req["types"] = []                               # --type (set per history by gen_case)
+    req["just_flag"] = rng.random() < 0.5          # max_depth 0 is written -j (else -S 0)
     if req["op"] == "unsetup":
         # `unsetup p v`: the version is only compared with the set-up one (a warning)
         req["ver"] = {"v": rng.choice(vs)} if vs and rng.random() < 0.2 else None
@@ -257,6 +341,58 @@ def small_graphs():
         yield {"graph": g, "prior": {"PATH": BASE_PATH}, "prior_mode": "exhaustive", "history": [dict(h) for h in hist]}
 
 
+def aim_new_classes(rng, g, hist, plain=False):
+    """Aim a history at the input classes added in round 3 (each only when the graph has the feature)."""
+    base = dict(hist[0])
+    mk = lambda name, ver=None, **kw: dict(base, op="setup", name=name, ver=ver, keep=False, max_depth=-1, tags=[], **kw)
+    if g.get("prefix_pair") and rng.random() < 0.6:
+        # the bystander <p>_<suffix> is set up first, then <p> (not set up yet) is requested
+        n0, pn = g["prefix_pair"]
+        v0 = rng.choice([d["ver"] for d in g["decls"] if d["name"] == pn and d.get("stack", 0) == 0])
+        second = dict(hist[0], name=n0, op="setup")
+        if rng.random() < 0.5:
+            second["ver"] = {"v": v0} if any(d["name"] == n0 and d["ver"] == v0 for d in g["decls"]) else None
+        hist[:1] = [mk(pn, {"v": v0}), second]
+    if g.get("shared_table") and rng.random() < 0.6:
+        # switch between two versions of the product whose versions share one table file
+        ns = g["shared_table"]
+        vs = [d["ver"] for d in g["decls"] if d["name"] == ns and d.get("stack", 0) == 0]
+        a, b = rng.sample(vs, 2)
+        hist[:0] = [mk(ns, {"v": a}), mk(ns, {"v": b})]
+
+
+def gen_generic_keep_case(rng):
+    """C04 class "keep with a set-up product of a non-session flavor": a product declared -f generic (found through the
+    fallback flavors, SETUP_ record `-f generic`) is set up by an explicit request; every later request carries --keep and
+    names another product (preferably one whose table asks for the generic product, in whatever version).  The generic
+    product is therefore only ever resolved again through the `keep` entry at the head of the VRO — the one place where the
+    flavor fallback loop of Eups.setup (round 1 over Linux declarations with its already-set-up fallback, round 2 over
+    generic ones), which the model does not have, cannot make a difference."""
+    g = gen_graph(rng, cyc=False, generic=True)
+    if g.get("nstacks", 1) > 1:
+        g["decls"] = [d for d in g["decls"] if d.get("stack", 0) == 0]
+        g["nstacks"] = 1
+        g.pop("tags1", None)
+    ng = g["generic"]
+    vs = [d["ver"] for d in g["decls"] if d["name"] == ng]
+    users = sorted({d["name"] for d in g["decls"] if d["name"] != ng and
+                    any(a.get("a") == "dep" and a["name"] == ng for _, a in flat_table(d["table"]))})
+    inexact = rng.random() < 0.2
+    def mk(name, ver, keep):
+        r = gen_request(rng, g, op="setup", plain=True)
+        r.update(name=name, ver=ver, keep=keep, inexact=inexact, path=[0])
+        return r
+    hist = [mk(ng, {"v": rng.choice(vs)}, False)]
+    others = [n for n in g["names"] if n != ng]
+    for _ in range(rng.randint(1, 3)):
+        n = rng.choice(users) if users and rng.random() < 0.7 else rng.choice(others)
+        r = mk(n, None, True)
+        if rng.random() < 0.3:
+            r["max_depth"] = rng.choice([1, 2])
+        hist.append(r)
+    return {"graph": g, "prior": {"PATH": BASE_PATH}, "prior_mode": "clean", "history": hist}
+
+
 def gen_case(rng, cyc=None, nreq=None, plain=False):
     if cyc is None:
         cyc = rng.random() < 0.1
@@ -266,10 +402,14 @@ def gen_case(rng, cyc=None, nreq=None, plain=False):
     hist = []
     n = nreq or rng.randint(1, 5)
     flip = rng.randint(1, n - 1) if (n > 1 and not plain and rng.random() < 0.12) else None   # mixed setup types (D34)
+    types = ["build"] if rng.random() < 0.2 else []           # setup --type build, for the whole history …
+    tflip = rng.randint(1, n - 1) if (n > 1 and not plain and rng.random() < 0.06) else None   # … or changing midway (D34)
     for k in range(n):
         r = gen_request(rng, g, plain=plain)
         r["inexact"] = inexact if (flip is None or k < flip) else not inexact
+        r["types"] = list(types) if (tflip is None or k < tflip) else ([] if types else ["build"])
         hist.append(r)
+    aim_new_classes(rng, g, hist, plain)
     return {"graph": g, "prior": prior, "prior_mode": mode, "history": hist}
 
 
@@ -286,12 +426,43 @@ def flat_table(table):
     """[(guard, act)] in table order"""
     out = []
     for seg in table:
-        if "if" in seg:
+        if "if" in seg and seg.get("cond"):
+            out += [("type:" + seg["cond"], a) for a in seg["if"]]
+            out += [("ntype:" + seg["cond"], a) for a in seg["else"]]
+        elif "if" in seg:
             out += [("exact", a) for a in seg["if"]]
             out += [("inexact", a) for a in seg["else"]]
         else:
             out.append(("always", seg))
     return out
+
+
+class Mode(int):
+    """The setup type(s) a request runs under, as the oracles pass it around: truth value = "exact" in the setup type
+    (the historical boolean), .types = the --type list."""
+    def __new__(cls, exact, types=()):
+        o = int.__new__(cls, 1 if exact else 0)
+        o.types = tuple(types)
+        return o
+
+
+def mode_of(req):
+    return Mode(not req["inexact"], req.get("types") or ())
+
+
+def guard_holds(gd, mode):
+    if gd == "always":
+        return True
+    if gd == "exact":
+        return bool(mode)
+    if gd == "inexact":
+        return not mode
+    types = getattr(mode, "types", ())
+    if gd.startswith("type:"):
+        return gd[5:] in types
+    if gd.startswith("ntype:"):
+        return gd[6:] not in types
+    raise ValueError(gd)
 
 
 def spec_text(sp):
@@ -311,16 +482,22 @@ def spec_text(sp):
     raise ValueError(k)
 
 
-def act_text(a, pathvars):
+def spell(text, name):
+    """Table spelling of the placeholders in a value: %D = the product's own directory written ${<NAME>_DIR} (not
+    ${PRODUCT_DIR}), %V = ${PRODUCT_VERSION}."""
+    return text.replace("%D", "${%s_DIR}" % (name or "PRODUCT").upper()).replace("%V", "${PRODUCT_VERSION}")
+
+
+def act_text(a, pathvars, name=None):
     if a["a"] == "prepend":
         dl = pathvars.get(a["var"], ":")
-        val = dl.join(("${PRODUCT_DIR}" if o else "") + v for o, v in pvals(a))
+        val = spell(dl.join(("${PRODUCT_DIR}" if o else "") + v for o, v in pvals(a)), name)
         if "," in val or " " in val:
             val = '"%s"' % val
         third = "" if dl == ":" else ', "%s"' % dl
         return "%s(%s, %s%s)" % ("envAppend" if a["append"] else "envPrepend", a["var"], val, third)
     if a["a"] == "set":
-        return "envSet(%s, %s)" % (a["var"], ("${PRODUCT_DIR}" if a["own"] else "") + a["val"])
+        return "envSet(%s, %s)" % (a["var"], spell(("${PRODUCT_DIR}" if a["own"] else "") + a["val"], name))
     if a["a"] == "alias":
         return "addAlias(%s, %s)" % (a["key"], a["val"])
     if a["a"] == "dep":
@@ -331,17 +508,17 @@ def act_text(a, pathvars):
     raise ValueError(a)
 
 
-def table_text(table, pathvars):
+def table_text(table, pathvars, name=None):
     out = []
     for seg in table:
         if "if" in seg:
-            out.append("if (type == exact) {")
-            out += ["   " + act_text(a, pathvars) for a in seg["if"]]
+            out.append("if (type == %s) {" % seg.get("cond", "exact"))
+            out += ["   " + act_text(a, pathvars, name) for a in seg["if"]]
             out.append("} else {")
-            out += ["   " + act_text(a, pathvars) for a in seg["else"]]
+            out += ["   " + act_text(a, pathvars, name) for a in seg["else"]]
             out.append("}")
         else:
-            out.append(act_text(seg, pathvars))
+            out.append(act_text(seg, pathvars, name))
     return "\n".join(out) + "\n"
 
 
@@ -375,6 +552,7 @@ class G:
         self.decl = {(d["name"], vk(d["ver"], d.get("stack", 0))): d for d in g["decls"]}
         self.flat = {k: flat_table(d["table"]) for k, d in self.decl.items()}
         self.names = sorted({d["name"] for d in g["decls"]})
+        self.flavors = {d["name"]: d["flavor"] for d in g["decls"] if d.get("flavor")}
         self.setvars = sorted({a["var"] for fl in self.flat.values() for _, a in fl if a["a"] == "set"})
         self.edges = {}                          # name -> set of names (any version, any guard)
         for (n, v), fl in self.flat.items():
@@ -418,8 +596,7 @@ class G:
         return None
 
     def acts(self, n, v, exact):
-        want = ("always", "exact" if exact else "inexact")
-        return [a for gd, a in self.flat[(n, v)] if gd in want]
+        return [a for gd, a in self.flat[(n, v)] if guard_holds(gd, exact)]
 
     def reach(self, start_names):
         """names reachable from the given names through the tables of *any* version (over-approximation)"""
@@ -453,12 +630,26 @@ class G:
     def cyclic_names(self):
         return {n for n in self.names if any(n in self.reach([m]) for m in self.edges.get(n, ()))}
 
+    def expand(self, n, v, text):
+        """the placeholders of a value, expanded for one declared version: %D its directory, %V its version name"""
+        return text.replace("%D", self.dir(n, v)).replace("%V", unvk(v)[0])
+
     def value(self, n, v, a):
-        return (self.dir(n, v) if a["own"] else "") + a["val"]
+        return self.expand(n, v, (self.dir(n, v) if a["own"] else "") + a["val"])
 
     def values(self, n, v, a):
-        """[(own?, string)] for every piece of a path action's value"""
-        return [(o, (self.dir(n, v) if o else "") + t) for o, t in pvals(a)]
+        """[(own?, string)] for every piece of a path action's value (a piece whose text itself holds the variable's
+        delimiter — `:${X_DIR}/man` — is split, empty pieces dropped)"""
+        dl = self.pathvars.get(a["var"], ":")
+        out = []
+        for o, t in pvals(a):
+            x = self.expand(n, v, (self.dir(n, v) if o else "") + t)
+            if "%" in t and not o:
+                dd = self.dir(n, v)
+                out += [((dd != "none" and (y == dd or y.startswith(dd + "/"))), y) for y in x.split(dl) if y]
+            else:
+                out.append((o, x))
+        return out
 
 
 # ================================================================================================
@@ -509,23 +700,36 @@ def install(g, root):
             os.makedirs(os.path.join(S, "tables"), exist_ok=True)
             tf = os.path.join(S, "tables", "%s-%s.table" % (d["name"], d["ver"]))
             with open(tf, "w") as f:
-                f.write(table_text(d["table"], g["pathvars"]))
+                f.write(table_text(d["table"], g["pathvars"], d["name"]))
             with open(os.path.join(S, "ups_db", d["name"], d["ver"] + ".version"), "w") as f:
                 f.write((VERSION_FILE % {"n": d["name"], "v": d["ver"], "sub": "none"}).replace(
                     "TABLE_FILE = %s.table" % d["name"], "TABLE_FILE = %s" % tf))
             continue
         pd = os.path.join(S, d["sub"])
         os.makedirs(os.path.join(pd, "ups"), exist_ok=True)
-        with open(os.path.join(pd, "ups", d["name"] + ".table"), "w") as f:
-            f.write(table_text(d["table"], g["pathvars"]))
+        vf = VERSION_FILE % {"n": d["name"], "v": d["ver"], "sub": d["sub"]}
+        if d.get("flavor"):             # declared -f generic: found through the fallback flavors
+            vf = vf.replace("FLAVOR = Linux", "FLAVOR = " + d["flavor"])
+        if d.get("shared"):
+            # ONE table file for every version of the product (declare -m /site/<name>.table): written once
+            tf = os.path.join(S, d["shared"])
+            os.makedirs(os.path.dirname(tf), exist_ok=True)
+            if not os.path.exists(tf):
+                with open(tf, "w") as f:
+                    f.write(table_text(d["table"], g["pathvars"], d["name"]))
+            vf = vf.replace("TABLE_FILE = %s.table" % d["name"], "TABLE_FILE = %s" % tf)
+        else:
+            with open(os.path.join(pd, "ups", d["name"] + ".table"), "w") as f:
+                f.write(table_text(d["table"], g["pathvars"], d["name"]))
         with open(os.path.join(S, "ups_db", d["name"], d["ver"] + ".version"), "w") as f:
-            f.write(VERSION_FILE % {"n": d["name"], "v": d["ver"], "sub": d["sub"]})
+            f.write(vf)
+    flav = {d["name"]: d["flavor"] for d in g["decls"] if d.get("flavor")}
     for k, S in enumerate(Ss):
         for t, m in stack_tags(g, k).items():
             for n, v in m.items():
                 os.makedirs(os.path.join(S, "ups_db", n), exist_ok=True)
                 with open(os.path.join(S, "ups_db", n, t + ".chain"), "w") as f:
-                    f.write(CHAIN_FILE % {"n": n, "v": v, "t": t})
+                    f.write((CHAIN_FILE % {"n": n, "v": v, "t": t}).replace("FLAVOR = Linux", "FLAVOR = " + flav.get(n, "Linux")))
     return Ss, ud
 
 
@@ -573,8 +777,11 @@ def _do_request(Ss, ud, env, req):
             nest[0] -= 1
     M.Eups.setup = counted
     out = {"exc": None}
+    if req.get("cli"):
+        return _do_cli(M, U, Ss, req, out, nest)
     with contextlib.redirect_stderr(io.StringIO()), contextlib.redirect_stdout(io.StringIO()):
-        E = M.Eups(readCache=False, quiet=1, keep=req["keep"], max_depth=req["max_depth"])
+        E = M.Eups(readCache=False, quiet=1, keep=req["keep"], max_depth=req["max_depth"],
+                   setupType=" ".join(req.get("types") or []))
         vname = ver_text(req["ver"])
         tags = list(req["tags"]) or None
         E.selectVRO(tag=tags, versionName=vname, inexact_version=req["inexact"])
@@ -593,6 +800,68 @@ def _do_request(Ss, ud, env, req):
     out["env"] = dict(os.environ)
     out["aliases"] = dict(E.aliases)
     out["unaliased"] = sorted(k for k in E.oldAliases if k not in E.aliases)
+    out["nest"] = nest[1]
+    return out
+
+
+def cli_args(Ss, req):
+    """The argument vector of `eups_setup` for a request (what the shell function `setup` / `unsetup` passes on)."""
+    args = ["-q"]
+    if req["op"] == "unsetup":
+        args.append("-u")
+    if req["keep"]:
+        args.append("-k")
+    if req["max_depth"] == 0 and req.get("just_flag", True):
+        args.append("-j")                                   # --just is --max-depth 0
+    elif req["max_depth"] >= 0:
+        args += ["-S", str(req["max_depth"])]
+    for t in req["tags"]:
+        args += ["-t", t]
+    if req["inexact"]:
+        args.append("-E")
+    if req.get("types"):
+        args += ["--type", " ".join(req["types"])]
+    args += ["-Z", ":".join(Ss[k] for k in req_path(req))]
+    args.append(req["name"])
+    v = ver_text(req["ver"])
+    if v is not None:
+        args.append(v)
+    return args
+
+
+def _do_cli(M, U, Ss, req, out, nest):
+    """One command through setupcmd.EupsSetup(args).run(): the text it prints is what the shell evaluates."""
+    SC = common.eups_mod("setupcmd")
+    seen = {}
+    orig_select = M.Eups.selectVRO
+
+    def select(self, *a, **k):
+        r = orig_select(self, *a, **k)
+        seen["E"] = self
+        seen["vro"] = list(self.getPreferredTags())
+        return r
+    M.Eups.selectVRO = select
+    buf = io.StringIO()
+    with contextlib.redirect_stderr(io.StringIO()), contextlib.redirect_stdout(buf):
+        try:
+            status = SC.EupsSetup(cli_args(Ss, req), "eups_setup").run()
+            text = buf.getvalue()
+            cmds = text[:-1].split(";\n") if text.endswith("\n") and text != "\n" else ([] if text == "\n" else ["?" + text])
+            out["status"] = status
+            out["outcome"] = "notfound" if "false" in cmds else "ok"
+            out["cmds"] = cmds
+        except _TooDeep:
+            out["outcome"] = "deep"
+            out["cmds"] = None
+        except Exception as e:  # noqa
+            out["outcome"] = "raised"
+            out["exc"] = type(e).__name__
+            out["cmds"] = None
+    E = seen.get("E")
+    out["vro"] = seen.get("vro", [])
+    out["env"] = dict(os.environ)
+    out["aliases"] = dict(E.aliases) if E is not None else {}
+    out["unaliased"] = sorted(k for k in E.oldAliases if k not in E.aliases) if E is not None else []
     out["nest"] = nest[1]
     return out
 
@@ -647,7 +916,8 @@ def run_history(case):
             r = r[1]
             res = {"before": strip(env, S), "outcome": r["outcome"], "exc": r["exc"], "vro": r["vro"], "nest": r["nest"],
                    "after": strip(r["env"], S), "aliases": r["aliases"], "unaliased": r["unaliased"],
-                   "cmds": [strip_text(c, S) for c in r["cmds"]] if r["cmds"] is not None else None}
+                   "cmds": [strip_text(c, S) for c in r["cmds"]] if r["cmds"] is not None else None,
+                   "cmds_raw": r["cmds"], "roots": list(Ss)}
             if r["outcome"] == "ok":
                 shell, defs, undefs = apply_cmds(env, r["cmds"])
                 res["shell"] = strip(shell, S)
@@ -695,7 +965,8 @@ def canon_env(G_, env):
     for k, v in env.items():
         if k.startswith("SETUP_"):
             f = v.split()
-            if len(f) == 6 and f[2:4] == ["-f", "Linux"] and f[4] == "-Z" and f[5] in ROOTS and k == "SETUP_" + f[0].upper():
+            if len(f) == 6 and f[2:4] == ["-f", G_.flavors.get(f[0], "Linux")] and f[4] == "-Z" and f[5] in ROOTS \
+                    and k == "SETUP_" + f[0].upper():
                 recs[f[0]] = vk(f[1], ROOTS.index(f[5]))
             else:
                 recs[k] = "RAW:" + v
@@ -712,11 +983,33 @@ def canon_env(G_, env):
     return {"recs": recs, "dirs": dirs, "paths": paths, "vars": vars_}
 
 
+def sh_comparable(G_, r):
+    """Is the command list compared string by string?  Yes unless a path variable of the environment the request
+    started from holds empty elements (`a::b`, a leading or trailing delimiter): the element lists of the setup model
+    do not carry them (C12 owns the string level), so the exported *string* is not determined by the model there."""
+    for var, dl in G_.pathvars.items():
+        v = r["before"].get(var)
+        if v is not None and (v == "" or "" in v.split(dl)):
+            return False
+    return True
+
+
+def sh_canon(G_, cmds):
+    """The command strings as compared: sorted (the order is the dict order of os.environ), without `export <P>_DIR=none`
+    for products declared without a directory — the model tags that value by (product, version), so it re-exports it when
+    the version changes although the string does not (the environment the shell ends with is checked by the clause
+    commands_realise_environment either way)."""
+    nodir = {"export %s_DIR=none" % d["name"].upper() for d in G_.g["decls"] if d["sub"] is None}
+    return sorted(c for c in cmds if c not in nodir)
+
+
 def canon_impl(G_, r):
     """The observables of one request on the implementation."""
     if "before" not in r:
         return {"outcome": r["outcome"]}
     out = {"outcome": r["outcome"], "vro": r["vro"], "deep": r["nest"] > FUEL}
+    if r.get("cmds_raw") is not None and sh_comparable(G_, r):
+        out["sh"] = sh_canon(G_, r["cmds"])          # the command strings of eups.app.setup
     if r["outcome"] in ("ok", "raised"):
         out["env"] = canon_env(G_, r["after"])
     if r["outcome"] == "ok":
@@ -748,8 +1041,30 @@ def model_db(G_):
                 tb.append({"g": gd, "a": "dep", "name": a["name"], "opt": a["opt"], "just": a["just"], "ver": ver,
                            "vexpr": vexpr, "tags": list(a.get("tags", [])), "keep": bool(a.get("keep"))})
             elif a["a"] == "prepend":
-                tb.append({"g": gd, "a": "prepend", "var": a["var"], "append": a["append"],
-                           "vals": [{"own": o, "val": t} for o, t in pvals(a)]})
+                vals = []
+                dl = G_.pathvars.get(a["var"], ":")
+                for o, t in pvals(a):
+                    if "%" in t:        # a placeholder: the model gets the expanded string (own text stays own)
+                        x = G_.expand(n, v, t)
+                        if o:
+                            vals.append({"own": True, "val": x})
+                        else:
+                            # a piece that is the product's own directory (+ rest) is an own element, as the
+                            # driver tags the same string when it meets it in the environment
+                            dd = G_.dir(n, v)
+                            for y in x.split(dl):
+                                if y and dd != "none" and (y == dd or y.startswith(dd + "/")):
+                                    vals.append({"own": True, "val": y[len(dd):]})
+                                elif y:
+                                    vals.append({"own": False, "val": y})
+                    else:
+                        vals.append({"own": o, "val": t})
+                tb.append({"g": gd, "a": "prepend", "var": a["var"], "append": a["append"], "vals": vals})
+            elif a["a"] == "set":
+                x = dict(a)
+                x["g"] = gd
+                x["val"] = G_.expand(n, v, a["val"])
+                tb.append(x)
             else:
                 x = dict(a)
                 x["g"] = gd
@@ -760,20 +1075,27 @@ def model_db(G_):
     return {"decls": decls, "tags": tags}
 
 
-def model_request(G_, db, before, req):
+def model_request(G_, db, before, req, roots=None):
     env = canon_env(G_, before)
     env = dict(env, recs={n: list(unvk(v)) if not v.startswith("RAW:") else [v, 99] for n, v in env["recs"].items()})
-    return {"m": "c01", "op": req["op"], "fuel": FUEL, "db": db, "env": env,
-            "req": {"name": req["name"], "ver": req["ver"], "keep": req["keep"], "max_depth": req["max_depth"],
-                    "inexact": req["inexact"], "tags": req["tags"], "path": req_path(req)}}
+    out = {"m": "c01", "op": req["op"], "fuel": FUEL, "db": db, "env": env, "types": list(req.get("types") or []),
+           "req": {"name": req["name"], "ver": req["ver"], "keep": req["keep"], "max_depth": req["max_depth"],
+                   "inexact": req["inexact"], "tags": req["tags"], "path": req_path(req)}}
+    if roots:
+        # end to end: the model renders the command strings of eups.app.setup with the real stack roots
+        out["layout"] = {"roots": list(roots), "delims": dict(G_.pathvars), "flavor": "Linux", "flavors": dict(G_.flavors),
+                         "subst": [[ROOTS[k], roots[k]] for k in reversed(range(len(roots)))]}
+    return out
 
 
-def canon_model(ans):
+def canon_model(ans, sh_roots=None, G_=None):
     if "bad-op" in ans:
         return {"outcome": "bad-op:" + str(ans["bad-op"])}
     if ans["out"] == "fuel":
         return {"outcome": "fuel", "vro": ans["vro"], "deep": True}
     out = {"outcome": ans["out"], "vro": ans["vro"], "deep": False}
+    if sh_roots is not None and ans.get("sh") is not None:
+        out["sh"] = sh_canon(G_, [strip_text(c, sh_roots) for c in ans["sh"]])
     if ans["out"] in ("ok", "raised"):
         e = ans["env"]
         out["env"] = {"recs": {n: (vk(r[0], r[1]) if r[1] != 99 else r[0]) for n, r in e["recs"].items()},
@@ -992,7 +1314,7 @@ def check_request(G_, req, r, stats=None, mixed=False):
     requests of both setup types (--inexact and not)."""
     cyc = G_.cyclic_names()
     e0 = canon_env(G_, r["before"])
-    exact = not req["inexact"]
+    exact = mode_of(req)
 
     def cnt(k):
         if stats is not None:
@@ -1080,6 +1402,12 @@ def check_request(G_, req, r, stats=None, mixed=False):
                             if p2 != m and (p2, ov) in G_.decl and p2 in G_.reach([name]) and e1["recs"].get(p2) != ov \
                                     and m in G_.reach_from(p2, ov):
                                 cls = "D35"
+                        # the same mechanism inside one request: a product asked for in two versions along the
+                        # traversal is set up, then replaced — the replaced version's table names the missing product
+                        # (the property's clause 5 does not apply to such a traversal at all)
+                        for p2, vs in asked.items():
+                            if p2 != m and len(vs) > 1 and any(w2 is not None and m in G_.reach_from(p2, w2) for w2 in vs):
+                                cls = "D35"
                     yield ("C01", "line_designated_version", cls,
                            "%s's table asks for %s -> %s, record %r (before: %r)" % (name, m, w, got, e0["recs"].get(m)))
         # --- C04 (i) keep --------------------------------------------------------------------------
@@ -1154,14 +1482,15 @@ def run_cases(ctx, cases, workers=12):
         n0 = len(reqs)
         for req, r in zip(case["history"], raw):
             if "before" in r:
-                reqs.append(model_request(G_, db, r["before"], req))
+                reqs.append(model_request(G_, db, r["before"], req, r.get("roots")))
         spans.append((n0, len(reqs) - n0))
     answers = ctx.lean.ask_many(reqs)
     out = []
     for case, raw, (s, n) in zip(cases, raws, spans):
         G_ = G(case["graph"])
         impl = [canon_impl(G_, r) for r in raw]
-        model = [canon_model(a) for a in answers[s:s + n]]
+        model = [canon_model(a, sh_roots=(r.get("roots") if "sh" in im else None), G_=G_)
+                 for a, im, r in zip(answers[s:s + n], impl, raw)]
         out.append((case, G_, raw, impl, model))
     return out
 
@@ -1179,11 +1508,16 @@ def evaluate(ctx, pid, cases, stats, workers=12, extra=None):
                 raise common.InfraError("driver rejected a request: %s" % mo["outcome"])
             ctx.hist("outcome=" + im["outcome"])
             ctx.hist("op=%s" % req["op"])
+            ctx.hist("entry=%s" % ("setupcmd" if req.get("cli") else "app.setup"))
             if im.get("deep") or mo.get("deep"):
                 ctx.hist("recursion_limit")
             diffs = compare(im, mo)
             for d in diffs:
                 ctx.disagree(d, dict(inp, step=i), im, mo)
+            if "sh" in im:
+                stats["sh_compared"] = stats.get("sh_compared", 0) + 1
+                if any(c.startswith("export ") and "'" in c for c in im["sh"]):
+                    stats["sh_quoted"] = stats.get("sh_quoted", 0) + 1
             if im["outcome"] == "ok":
                 b, a = canon_env(G_, r["before"]), canon_env(G_, r["after"])
                 if a != b:
@@ -1194,9 +1528,31 @@ def evaluate(ctx, pid, cases, stats, workers=12, extra=None):
                 stats["ok"] = stats.get("ok", 0) + 1
             if im.get("deep"):
                 continue
-            mixed = len({h["inexact"] for h in case["history"][:i + 1]}) > 1
+            mixed = len({(h["inexact"], tuple(h.get("types") or ())) for h in case["history"][:i + 1]}) > 1
             if mixed:
                 ctx.hist("mixed_setup_types")
+            if req.get("types"):
+                ctx.hist("setup_type=" + ",".join(req["types"]))
+            if im["outcome"] == "ok" and req["op"] == "setup":
+                b0 = canon_env(G_, r["before"])["recs"]
+                a0 = canon_env(G_, r["after"])["recs"]
+                g_ = case["graph"]
+                pp = g_.get("prefix_pair")
+                if pp and req["name"] == pp[0] and pp[1] in b0 and pp[0] not in b0:
+                    ctx.hist("class_prefix_bystander")
+                    stats["class_prefix_bystander"] = stats.get("class_prefix_bystander", 0) + 1
+                st = g_.get("shared_table")
+                if st and st in b0 and a0.get(st) not in (None, b0[st]):
+                    ctx.hist("class_shared_table_switch")
+                    stats["class_shared_table_switch"] = stats.get("class_shared_table_switch", 0) + 1
+                gn = g_.get("generic")
+                if gn and req["keep"] and gn in b0 and gn != req["name"] and gn in G_.reach([req["name"]]):
+                    ctx.hist("class_keep_generic")
+                    stats["class_keep_generic"] = stats.get("class_keep_generic", 0) + 1
+                if any("%D" in t for (n_, v_) in a0.items() if (n_, v_) in G_.decl
+                       for a_ in G_.acts(n_, v_, mode_of(req)) if a_["a"] == "prepend" for _, t in pvals(a_)):
+                    ctx.hist("class_mid_reference_set_up")
+                    stats["class_mid_reference"] = stats.get("class_mid_reference", 0) + 1
             for prop, clause, cls, detail in check_request(G_, req, r, stats, mixed=mixed):
                 if prop != pid:
                     continue
@@ -1229,7 +1585,7 @@ def replay_case(ctx, pid, rp):
             continue
         if "before" not in r or impl[i].get("deep"):
             continue
-        mixed = len({h["inexact"] for h in case["history"][:i + 1]}) > 1
+        mixed = len({(h["inexact"], tuple(h.get("types") or ())) for h in case["history"][:i + 1]}) > 1
         for prop, clause, cls, detail in check_request(G_, req, r, mixed=mixed):
             if prop == pid:
                 fails.append({"step": i, "clause": clause, "class": cls, "detail": detail})
@@ -1314,13 +1670,13 @@ def roundtrip_oracle(G_, case, raw, impl, model, stats):
         setv, el = set(), {}
         for n in G_.reach([a["name"]]):
             for v in G_.versions(n):
-                sv, e_ = contributed(G_, {n: v}, not a["inexact"])
+                sv, e_ = contributed(G_, {n: v}, mode_of(a))
                 setv |= sv
                 for k_, x_ in e_.items():
                     el.setdefault(k_, set()).update(x_)
         e2 = canon_env(G_, rb["shell"])
         left_recs = {n for n in e2["recs"] if n not in e0["recs"]}
-        cj = conflict_with_just(G_, a["name"], not a["inexact"], req_path(a))
+        cj = conflict_with_just(G_, a["name"], mode_of(a), req_path(a))
         d33 = bool(cj) and bool(left_recs) and left_recs <= G_.reach(cj)
         for k in sorted(set(x0) | set(x2)):
             if x0.get(k) != x2.get(k):
